@@ -4,4 +4,4 @@ from contracts import common as K
 
 
 def unit():
-    return Unit('deps', prelude=K.PRELUDE_BLOCK, spec=['steps.rs', 'wrapper.rs'], mods=K.DEPS(count=True, wrapper=True))
+    return Unit('deps', prelude=K.PRELUDE_BLOCK, spec=['steps.rs', 'wrapper_defs.rs', 'wrapper.rs'], mods=K.DEPS(count=True, wrapper=True))
